@@ -584,8 +584,8 @@ func RunSelectiveFetch(ruleset, scheme string, rng *vbase.Rng, r *vbase.Result, 
 // comes back and catches up through block requests; the reply to ONE of its requests, for a block below the one the
 // commit rule selects and above its last committed block, is lost. The catch-up must not commit anything above the
 // gap: the commit is retried as a whole with the next proposal.
-func RunCatchupLostFetch(variant int, ruleset, scheme string, rng *vbase.Rng, r *vbase.Result, enable func(*Monitors)) *Cluster {
-	cfg := Config{N: 4, Ruleset: ruleset, Scheme: scheme, Cache: 0, Leader: "script", Sched: []hotstuff.ID{1}, BatchSize: 1,
+func RunCatchupLostFetch(variant int, ruleset, scheme string, clients bool, rng *vbase.Rng, r *vbase.Result, enable func(*Monitors)) *Cluster {
+	cfg := Config{N: 4, Ruleset: ruleset, Scheme: scheme, Cache: 0, Leader: "script", Sched: []hotstuff.ID{1}, BatchSize: 1, Clients: clients,
 		Profile: "directed:catchup-lost-fetch", ByzRules: map[hotstuff.ID]string{}, Label: fmt.Sprintf("catchup-lost-fetch/%d", variant)}
 	c, err := NewCluster(cfg, rng, r)
 	if err != nil {
